@@ -70,6 +70,8 @@ func (g *zoneGen) services(owner, origin string, tag string) {
 		default:
 			if core.Chance(g.r, 1, 2) {
 				rec.ECH = g.ech()
+			} else if core.Chance(g.r, 1, 4) {
+				rec.ECH = -1 // an `ech` parameter that is present but empty
 			}
 		}
 		if !haveNoTarget && core.Chance(g.r, 1, 2) {
